@@ -132,6 +132,11 @@ def gen_cases(ctx):
     form = str(rng.choice(["tensor", "tensor", "list", "extra_batch", "list_extra_batch"]))
     kmode = str(rng.choice(["random", "random", "monotone", "edgeworth"])) if n <= 64 else str(rng.choice(["random", "monotone"]))
     kclass, w = gen.kernel(rng, n, units)
+    if rng.rand() < .15:
+      # vertices of very different magnitude in one cell: a convex combination still reproduces every vertex exactly and
+      # stays inside the cell's range; an algebraically equivalent rewrite (base + increments) cancels catastrophically
+      kclass = "mixed_magnitude"
+      w = (rng.choice([1e8, -1e6, 1.0, 2.0, 3.0, -0.5, 1e-3, 3e37, -3e37], size=(n, units), p=[.15, .1, .2, .15, .1, .1, .1, .05, .05])).astype(np.float32)
     nb = 24 if ctx.tier == "quick" else 40
     yield {"sizes": sizes, "units": units, "interp": interp, "clip": clip, "form": form,
            "kmode": kmode, "kclass": kclass, "w": w.tolist(), "nb": nb,
@@ -248,7 +253,9 @@ def run_case(ctx, case):
                     y[b, u], cell.min(), cell.max(), x[b, u].tolist()))
       if labels[b] == "vertex":
         v = W[tuple(xc.astype(int)) + (u,)]
-        ctx.check("consequence/vertex-exact", abs(y[b, u] - v) <= 4 * core.F32_EPS * scale,
+        # at a lattice vertex every interpolation weight is exactly 0 or 1 in both schemes: the output is the kernel
+        # entry itself, whatever the other vertices hold (2 ulp of that entry, not of the largest kernel value)
+        ctx.check("consequence/vertex-exact", abs(y[b, u] - v) <= 2 * core.F32_EPS * abs(v),
                   "vertex %s: output %.9g != kernel value %.9g" % (xc.tolist(), y[b, u], v))
 
   def evaluate(points, interpolation=interp):
